@@ -12,13 +12,16 @@ from .. import owners_driver as od
 
 RULE = ('a history counts when some call is contested: a create/alloc of an entry another owner '
         'holds, a free/unlink aimed at an entry another owner holds, a garbage collection with '
-        'both live-owned and orphaned entries present, or an allocation from an exhausted pool; '
+        'both live-owned and orphaned entries present, an allocation from an exhausted pool, or an owner '
+        'appearing/disappearing/registering in the middle of a garbage collection pass; '
         'distinct = distinct operation histories')
-NONTRIVIAL = {'contestedGrant', 'foreignRelease', 'gcMixed', 'exhausted'}
+NONTRIVIAL = {'contestedGrant', 'foreignRelease', 'gcMixed', 'exhausted', 'gcInterleaved'}
 
 ASSUMPTIONS = [
     'owners are directories created/removed by the harness (apps/<owner> and network_svc/resources/<owner>); '
-    'calls are sequential, one at a time (the managers have no locks of their own; atomicity rests on symlink(2))',
+    'calls are sequential, one at a time (the managers have no locks of their own; atomicity rests on symlink(2)), '
+    'except garbage collection: a pass is interleaved at its directory reads with what another process may do '
+    '(a new owner that holds nothing yet appears, a live owner registers entries, an owner disappears)',
     'CIDR 192.168.0.0/29 for replays (model checking: /30); which free host an allocation returns is left open '
     'in Owners.tla and read from the observation',
     'the network service is driven the way services/_base_service drives it: initialize, import of the listed '
@@ -52,14 +55,21 @@ def _mc(ctx):
     if ctx.quick:
         plan = [('vip', dict(owners=3, hosts=2), True), ('vip', dict(owners=3, hosts=6), False),
                 ('rule', dict(owners=3, rules=2), True), ('spec', dict(owners=3, specs=3), True),
-                ('svc', dict(owners=3, hosts=2), True)]
+                ('svc', dict(owners=3, hosts=2), True),
+                ('gcrule', dict(owners=3, rules=2), True), ('gcvip', dict(owners=3, hosts=2), True),
+                ('gcspec', dict(owners=3, specs=2), True)]
     else:
         plan = [('vip', dict(owners=3, hosts=2), True), ('vip', dict(owners=4, hosts=6), False),
                 ('rule', dict(owners=4, rules=3), True), ('spec', dict(owners=4, specs=4), True),
                 ('svc', dict(owners=3, hosts=2), True), ('svc', dict(owners=3, hosts=6), False),
-                ('svc', dict(owners=4, hosts=2), False)]
+                ('svc', dict(owners=4, hosts=2), False),
+                ('gcrule', dict(owners=3, rules=3), True), ('gcvip', dict(owners=3, hosts=2), True),
+                ('gcspec', dict(owners=3, specs=3), True), ('gcvip', dict(owners=3, hosts=6), False)]
     need = dict(vip=['VipGC', 'VipFree', 'VipAlloc', 'VipAllocPicked', 'OwnerDisappears'], rule=['RuleGC', 'RuleCreate', 'RuleUnlink'], spec=['SpecGC', 'SpecCreate', 'SpecUnlink', 'SpecUnlinkAll'],
-                svc=['Synchronize', 'SvcStart', 'OnDelete', 'OnCreate', 'Import'], mgr=[])
+                svc=['Synchronize', 'SvcStart', 'OnDelete', 'OnCreate', 'Import'], mgr=[],
+                gcrule=['GcBegin', 'GcList', 'GcVisit', 'GcEnd', 'RuleCreate', 'OwnerAppears'],
+                gcvip=['GcBegin', 'GcList', 'GcVisit', 'GcEnd', 'VipAlloc', 'OwnerAppears'],
+                gcspec=['GcBegin', 'GcList', 'GcVisit', 'GcEnd', 'SpecCreate', 'OwnerAppears'])
 
     def one(item):
         focus, kw, cov = item
@@ -89,7 +99,8 @@ def _gen(ctx):
     for k, (focus, depth, kw) in enumerate([
             ('mgr', 16, dict(owners=3, hosts=6, rules=2, specs=3)),
             ('vip', 16, dict(owners=3, hosts=6)),
-            ('svc', 20, dict(owners=3, hosts=6))]):
+            ('svc', 20, dict(owners=3, hosts=6)),
+            ('gc', 18, dict(owners=4, hosts=6, rules=3, specs=3))]):
         mod, cfg, files = od.mc_files(focus, 0, tag='_gen', invariants=(), **kw)
         behaviours, cmd = tlc.simulate(od.SPEC_DIR, mod, cfg, num=n_tlc, depth=depth + 1,
                                        seed=ctx.seed * 31 + k, procs=4 if ctx.quick else 10,
@@ -134,16 +145,16 @@ def judge(ctx, traces, verdicts):
                 line = t['lines'][v['i']]
                 violations.append(dict(
                     clause=f, signature='%s@%s' % (f, line['ev']),
-                    what='after %s(%s) -> %s at step %d of %s' % (
-                        line['ev'], ','.join(line['args']), line['res'], v['i'], t['tid']),
+                    what='after %s(%s) -> %s at line %d of: %s' % (
+                        line['ev'], ','.join(line['args']), line['res'], v['i'],
+                        ' '.join(od.show(x) for x in t['history'][:line['h'] + 1])[-400:]),
                     replay_payload=dict(kind='owners', property='C14', clause=f,
-                                        history=t['history'][:v['i']], failed_step=v['i'])))
+                                        history=t['history'][:line['h'] + 1], failed_step=v['i'])))
     violations.sort(key=lambda x: len(x['replay_payload']['history']))   # shortest first
     samples = []
     for t in traces:
         if core.hist_hash(t['history']) in nontrivial:
-            samples.append(dict(source=t.get('src'), history=['%s(%s)' % (e, ','.join(a))
-                                                              for e, a in t['history']]))
+            samples.append(dict(source=t.get('src'), history=[od.show(x) for x in t['history']]))
         if len(samples) >= 3:
             break
     if ctx.drift:
@@ -174,7 +185,7 @@ def run(ctx):
 
 def replay(ctx, path):
     payload = json.load(open(path))
-    h = [(e, list(a)) for e, a in payload['history']]
+    h = [tuple(x) for x in payload['history']]
     jtmp, old = _tmp_env()
     try:
         traces = _record([('replay', h)])
